@@ -117,8 +117,38 @@ def _smin(a, b):
     return min(a, b)
 
 
-sym_maximum = _binary(_smax, _np.maximum, 'maximum')
-sym_minimum = _binary(_smin, _np.minimum, 'minimum')
+class _UfuncLike(object):
+    """binary ufunc stand-in with .accumulate / .reduce (np.maximum.accumulate, ...)"""
+
+    def __init__(self, f, real, name):
+        self._f = f
+        self._real = real
+        self.__name__ = name
+
+    def __call__(self, a, b, *args, **kw):
+        return self._f(a, b, *args, **kw)
+
+    def accumulate(self, a, axis=0, **kw):
+        if not is_sym(a):
+            return self._real.accumulate(a, axis=axis, **kw)
+        a = _np.asarray(a, dtype=object)
+        if a.ndim != 1:
+            raise NotEncodable('accumulate on %d-d symbolic array' % a.ndim)
+        out = _np.empty(a.shape, dtype=object)
+        acc = None
+        for i in range(a.shape[0]):
+            acc = a[i] if acc is None else self._f(acc, a[i])
+            out[i] = acc
+        return out
+
+    def reduce(self, a, axis=0, **kw):
+        if not is_sym(a):
+            return self._real.reduce(a, axis=axis, **kw)
+        return self.accumulate(a)[-1]
+
+
+sym_maximum = _UfuncLike(_binary(_smax, _np.maximum, 'maximum'), _np.maximum, 'maximum')
+sym_minimum = _UfuncLike(_binary(_smin, _np.minimum, 'minimum'), _np.minimum, 'minimum')
 sym_power = _binary(lambda a, b: _S(a) ** b if isinstance(a, SymReal) or isinstance(b, SymReal) else a ** b,
                     _np.power, 'power')
 sym_arctan2 = _binary(lambda y, x: SymReal(T.func('arctan2', lift(y), lift(x))), _np.arctan2, 'arctan2')
